@@ -18,7 +18,7 @@ RULE = ("date / datetime vectors in units D, s, ms, us (time-of-day extractors o
         "flags, count / maxsplit; Vector .dt / .re / .str proxies vs module functions; scalar arguments; "
         "non-trivial = >=2 elements with a missing and a non-missing one")
 
-DATES = ["0001-01-01", "1969-12-31", "1970-01-01", "2000-02-29", "2004-12-31", "2015-12-31", "2020-12-31", "2021-01-03", "2024-02-29",
+DATES = ["0001-01-01", "0476-09-04", "0999-12-31", "1969-12-31", "1970-01-01", "2000-02-29", "2004-12-31", "2015-12-31", "2020-12-31", "2021-01-03", "2024-02-29",
          "2026-09-29", "9999-12-31", "1999-03-07"]
 TIMES = ["T00:00:00", "T12:34:56", "T23:59:59.999999", "T06:07:08.000123"]
 ROUND_TIMES = ["T12:00:00", "T06:00:00", "T18:00:00", "T00:07:12", "T01:12:00", "T23:16:48"]
@@ -66,9 +66,12 @@ def gen_case(rng, tier):
         tpool = TIMES[:2] + ROUND_TIMES if rng.random() < 0.6 else ROUND_TIMES
         vals = [None if rng.random() < 0.25 else (rng.choice(DATES) + ("" if unit == "D" else rng.choice(tpool))) for _ in range(n)]
         fmt = rng.choice(FORMATS_D if unit == "D" else FORMATS_T)
-        if any(v is not None and v.startswith("0001") for v in vals):
-            vals = [v if v is None or not v.startswith("0001") else v.replace("0001", "1001", 1) for v in vals]   # %Y < 1000 is unpadded on glibc
-        return {"op": "strings", "unit": unit, "vals": vals, "fmt": fmt, "via": rng.choice(["module", "proxy"])}
+        # years below 1000: glibc's %Y does not pad them, so strptime cannot read them back; to_string must still give
+        # exactly what datetime.strftime gives for them ("tostring_only": the inverse is not asked for)
+        early = any(v is not None and v[:4] < "1000" for v in vals)
+        if rng.random() < 0.3 and fmt.count("%Y") == 1:
+            fmt = fmt.replace("%Y", rng.choice(["%Y", "%%Y%Y", "%Y%%"]))       # a literal percent sign next to the year
+        return {"op": "strings", "unit": unit, "vals": vals, "fmt": fmt, "via": rng.choice(["module", "proxy"]), "tostring_only": early}
     svals = [rng.choice(STRINGS) for _ in range(n)]
     if c < 0.82:
         f, args = rng.choice(STRFUNCS)
@@ -171,8 +174,9 @@ def impl(case):
             s = v.dt.to_string(case["fmt"]) if via == "proxy" else dt.to_string(v, case["fmt"])
             res["strings"] = canon_vec(s)
             res["str_dtype"] = str(s.dtype)
-            back = s.dt.from_string(case["fmt"]) if via == "proxy" else dt.from_string(s, case["fmt"])
-            res["back"] = canon_vec(di.Vector.fast(back))
+            if not case.get("tostring_only"):
+                back = s.dt.from_string(case["fmt"]) if via == "proxy" else dt.from_string(s, case["fmt"])
+                res["back"] = canon_vec(di.Vector.fast(back))
         elif op == "strproxy":
             v = with_history(di.Vector(case["vals"], str) if case["vals"] else di.Vector([], str))
             try:
@@ -302,14 +306,14 @@ def judge(ctx, case, obs, mouts):
             ctx.violation("oracle", "to_string:dtype", f"dt.to_string returned dtype {obs['str_dtype']}", case, obs)
         # from_string inverts to_string (to the precision the format carries)
         expb = []
-        for s in vals:
+        for s in ([] if case.get("tostring_only") else vals):
             if s is None:
                 expb.append(None)
             else:
                 y = pyobj(case["unit"], s)
                 r = datetime.datetime.strptime(y.strftime(case["fmt"]), case["fmt"])
                 expb.append(str(np.datetime64(r).astype("datetime64[us]")))
-        if obs["back"] != expb:
+        if not case.get("tostring_only") and obs["back"] != expb:
             ctx.violation("oracle", "from_string:not-inverse", f"from_string(to_string(x)) gave {obs['back']}, expected {expb}", case, obs, expb)
     elif op == "strproxy":
         if obs["out"] != obs["ref"] or not obs["is_vector"]:
